@@ -82,6 +82,10 @@ def gen_cases(ctx):
 def path_arg(spec):
     if spec == "callable-id":
         return lambda job: os.path.join("by_id", job.id)
+    if spec == "callable-conflict":
+        # some job's link is a directory on the way to another job's link, with a sibling whose name sorts in
+        # between ('x/job', 'x/job-old/job', 'x/job/job'): cannot be represented, must be refused
+        return lambda job: ("x", "x/job", "x/job-old", "x/job.1")[int(job.id[:2], 16) % 4]
     return spec
 
 
@@ -226,7 +230,7 @@ def run_case(ctx, case):
             _, spec, subset, sseed = op
             if subset == "subset" and m:
                 r = random.Random(sseed)
-                ids = r.sample(sorted(m), r.randint(1, len(m)))
+                ids = r.sample(sorted(m), r.randint(0, len(m)))  # the empty selection included
             else:
                 ids = None
             selected = {j: m[j] for j in (ids if ids is not None else m)}
@@ -297,6 +301,22 @@ def run_case(ctx, case):
                 return
             if len(selected) >= 2:
                 nviews += 1
+    # a layout that cannot be represented - one job's link would have to be a directory on the way to another job's
+    # link - is refused whatever other paths sort between the two, and an existing view stays as it is
+    ranks = {jid: int(jid[:2], 16) % 4 for jid in m}
+    if {0, 1} <= set(ranks.values()):
+        step = len(case["ops"])
+        prefix2 = os.path.join(W, "view_conflict")
+        _r, e0 = sig.exc_name(signac.Project(W).create_linked_view, prefix=prefix2, path="{job.id}")
+        before = model.snapshot(prefix2)
+        with fsmon.Session([W], contain=[prefix2]) as s4:
+            _r, e4 = sig.exc_name(signac.Project(W).create_linked_view, prefix=prefix2, path=path_arg("callable-conflict"))
+        ctx.monitor("rejected_input_keeps_view")
+        if e0 is None and (not isinstance(e4, RuntimeError) or model.snapshot(prefix2) != before or s4.policy_hits):
+            viol("unrepresentable-layout-not-refused", "a path layout with a link that is also a directory on the way to another link was not refused cleanly",
+                 {"outcome": repr(e4), "paths": sorted(("x", "x/job", "x/job-old", "x/job.1")[r] for r in ranks.values()),
+                  "diff": model.snap_diff(before, model.snapshot(prefix2)), "outside": [h[1] for h in s4.policy_hits][:3]})
+            return
     if nviews >= 2:
         ctx.distinct("nontrivial", case)
     if not case.get("exh"):
